@@ -84,7 +84,8 @@ func (s scenario) String() string {
 	return sb.String()
 }
 
-var errOutcomes = []string{"authn", "authz", "comm", "timeout", "arg", "internal", "config", "norule", "foreign", "eof", "panic", "panicerr"}
+var errOutcomes = []string{"authn", "authz", "comm", "timeout", "arg", "internal", "config", "norule", "foreign", "eof", "panic", "panicerr",
+	"canceled", "canceled-bare", "deadline"}
 
 func genOutcome(t *rapid.T) string {
 	if rapid.IntRange(0, 9).Draw(t, "okBias") < 8 {
